@@ -57,7 +57,7 @@ def gen(rng, tier):
     for _ in range(200):
         ast = sg.gen_formula(rng, sg.GenCfg(vars=vars_, ops=ops, max_depth=rng.randint(2, 4), max_bound=rng.choice([2, 4]),
                                             p_loose=0.03, allow_const_only=rng.random() < 0.1))
-        if any(x[0] == 'pred' for x in sg.walk(ast)) and sg.vars_of(ast) and not _memory_above_future(ast):
+        if any(x[0] == 'pred' for x in sg.walk(ast)) and sg.vars_of(ast) and not common.warmup_visible(ast):
             break
     io = dict((v, rng.choice(['input', 'output', None])) for v in vars_)
     sem = rng.choice(SEMS)
@@ -119,7 +119,7 @@ def _memory_above_future(ast):
 
 
 def envelope(sc):
-    return ['memory-past-above-delayed'] if (sc.get('pastify') and _memory_above_future(sc['ast'])) else []
+    return common.warmup_visible(sc['ast']) if sc.get('pastify') else []
 
 
 def insensitive(sem, io, node):
@@ -286,8 +286,10 @@ def run(sc):
         try:
             out2 = evaluate(sc, desc_of(sc, with_io=False), r)
             r.evals += 1
+            def eqx(a, b):
+                return M.num_eq(a, b) or (a != a and b != b)      # NaN in a warm-up region on both sides
             same = (len(out) == len(out2) and all(
-                (eqn(a[0], b[0]) and eqn(a[1], b[1])) if dense else eqn(a, b) for a, b in zip(out, out2)))
+                (eqx(a[0], b[0]) and eqx(a[1], b[1])) if dense else eqx(a, b) for a, b in zip(out, out2)))
             if not same:
                 r.violate('standard-ignores-io-declarations', io=io, mode=sc['mode'], spec=desc_of(sc)['spec'], with_io=out,
                           without_io=out2)
